@@ -216,9 +216,11 @@ def _native_setup(mod, job, ghost, env):
         if cwd is not None:
             g.last_cwd = str(cwd)
         failed = {1: g.fail_version, 2: g.fail_build, 3: g.fail_upload}.get(code, False)
+        # a failing tool exits with a positive status or is killed by a signal (negative returncode): both are failures
+        rc = [1, -9, 2, -15, 127][(len(g.E) + len(str(args))) % 5]
         if failed and check:
-            raise subprocess.CalledProcessError(1, args)
-        return subprocess.CompletedProcess(args, 1 if failed else 0)
+            raise subprocess.CalledProcessError(rc, args)
+        return subprocess.CompletedProcess(args, rc if failed else 0)
 
     def fake_mkdtemp(*a, **k):
         d = real_mkdtemp(dir=scratch)
@@ -350,6 +352,14 @@ def extra_obligations(mods, tier, seed):
                     continue
                 out.append({"name": o["name"], "status": o["status"], "backend": o.get("backend") or "z3", "where": o.get("where"), "time": o.get("time", 0.0),
                             "model": o.get("model"), "reason": o.get("reason")})
+    # "the libraries the script needs": _collect_required_libraries is an uninterpreted function in the proof of target(); what it
+    # returns is C14's subject - its presence-vector obligations are re-run here so that this check does not rest on it unchecked
+    import contracts.c14 as c14
+    for o in c14.extra_obligations(None, tier, seed):
+        if "requested" in o["name"] or "vectors" in o["name"]:
+            o = dict(o)
+            o["name"] = o["name"].replace("C14/", "C12/dep-C14/", 1)
+            out.append(o)
     return out
 
 
